@@ -40,10 +40,15 @@ async fn no_sleeper(cx: &Ctx, l: &Litmus, consumers: usize, cancelled: Option<us
 }
 
 fn scenario(name: &'static str, consumers: Vec<COp>, event: Event, cancel_first: bool) -> ScenFn {
+    scenario_x(name, consumers, event, cancel_first, false)
+}
+
+/// `push_cfg`: the subscription was created with a push endpoint (no push loop is running here: it is only pulled)
+fn scenario_x(name: &'static str, consumers: Vec<COp>, event: Event, cancel_first: bool, push_cfg: bool) -> ScenFn {
     scen!([consumers] |cx| {
         let a = cx.api.clone();
         must!(cx, "setup:create-topic", { let a = a.clone(); async move { a.create_topic(T0).await } });
-        must!(cx, "setup:create-sub", { let a = a.clone(); async move { a.create_sub(S0, T0, 10, None).await } });
+        must!(cx, "setup:create-sub", { let a = a.clone(); async move { a.create_sub(S0, T0, 10, if push_cfg { Some("http://push.example/unused") } else { None }).await } });
         let mut held: Vec<Rm> = vec![];
         let t_handout = cx.now_ms();
         if matches!(event, Event::Nack | Event::Expiry | Event::PublishThenNack) {
@@ -128,6 +133,18 @@ pub fn units(thorough: bool) -> Vec<Unit> {
                 Bounds::new(dd),
                 ExecCfg::default(),
                 scenario("wake", c.clone(), e, false),
+            ));
+        }
+    }
+    // a subscription that has a push configuration but is pulled
+    for (cn, c) in [("pull1", vec![PullBlock(S0, 1)]), ("stream", vec![Stream(S0, 10)]), ("pull1+stream", vec![PullBlock(S0, 1), Stream(S0, 10)])] {
+        for e in [Event::Publish1, Event::Nack, Event::Expiry] {
+            v.push(explore_unit(
+                format!("sched-push-config/{}/{:?}", cn, e),
+                format!("the subscription was created with a push endpoint; consumers {:?} pull it; event {:?}", c, e),
+                Bounds::new(d.min(3)),
+                ExecCfg::default(),
+                scenario_x("push-config", c.clone(), e, false, true),
             ));
         }
     }
